@@ -50,6 +50,7 @@ def required(tier):
         "shape.same_base_twice": 50,
         "greedy.cases": 1000,
         "greedy.single_maximal_tree": 300,
+        "greedy.plain_alternative_accepted": 30,
     }
 
 
@@ -365,10 +366,14 @@ def greedy_template(rng):
     return elems
 
 
-def template_text(elems, greedy):
+def template_text(elems, greedy, alt=None):
     parts = []
     for t, op, g, sep in elems:
         parts.append("%s%s%s%s" % (t, op, "!" if (g and greedy and op) else "", "[%s]" % sep if sep else ""))
+    if alt:
+        # a second, plain alternative sharing a prefix with the template; it ends in
+        # a terminal of its own, so it matches exactly one input
+        return "S: %s | D;\nD: %s;\n%s\ne: \"e\";" % (" ".join(parts), " ".join(alt), TERMS)
     return "S: " + " ".join(parts) + ";\n" + TERMS
 
 
@@ -400,6 +405,101 @@ def shares_helper(elems):
     return False
 
 
+class PossessiveModel:
+    """Executable model of the KF-C13-3 mechanism, sharing no code with parglare:
+    the documented expansion of the template, a reference LALR(1) table, the
+    reduce by a helper production that carries the greedy mark removed from
+    every cell that also holds a shift, and a nondeterministic LR recognizer.
+    A sentence the greedy grammar rejects is attributed to the recorded
+    finding only if this model rejects it too."""
+
+    def __init__(self, elems, alt):
+        prods = []
+        right = set()
+        made = set()
+
+        def add(lhs, rhs, ra=False):
+            prods.append((lhs, tuple(rhs)))
+            if ra:
+                right.add(len(prods) - 1)
+
+        body = []
+        for t, op, g, sep in elems:
+            if not op:
+                body.append(t)
+            elif op == "?":
+                n = "O" + t
+                if n not in made:
+                    made.add(n)
+                    add(n, [t])
+                    add(n, [], g)
+                body.append(n)
+            else:
+                one = "P" + t + ("s" if sep else "")
+                if one not in made:
+                    made.add(one)
+                    add(one, [one] + (["comma"] if sep else []) + [t])
+                    add(one, [t])
+                if op == "+":
+                    if g:
+                        n = one + "g"
+                        if n not in made:
+                            made.add(n)
+                            add(n, [one], True)
+                        body.append(n)
+                    else:
+                        body.append(one)
+                else:
+                    n = "Z" + t + ("s" if sep else "")
+                    if n not in made:
+                        made.add(n)
+                        add(n, [one], g)
+                        add(n, [], g)
+                    body.append(n)
+        add("S", body)
+        if alt:
+            add("S", ["D"])
+            add("D", list(alt))
+        self.prods = prods
+        lr = cfg.LR1(cfg.G(prods, "S"))
+        core = [lr.core(x) for x in lr.states]
+        self.start = core[0]
+        self.trans = {(core[i], sym): core[j] for (i, sym), j in lr.trans.items()}
+        self.acts = {}
+        self.removed = 0
+        for c, m in lr.lalr_actions().items():
+            self.acts[c] = {}
+            for tok, v in m.items():
+                v = set(v)
+                if ("s",) in v or ("acc",) in v:
+                    drop = {x for x in v if x[0] == "r" and x[1] in right}
+                    self.removed += len(drop)
+                    v -= drop
+                self.acts[c][tok] = v
+
+    def accepts(self, w):
+        toks = [{",": "comma"}.get(ch, ch) for ch in w] + ["$"]
+        seen = set()
+        st = [((self.start,), 0)]
+        while st:
+            cf = st.pop()
+            if cf in seen:
+                continue
+            seen.add(cf)
+            stack, pos = cf
+            tok = toks[pos]
+            for a in self.acts[stack[-1]].get(tok, ()):
+                if a[0] == "acc":
+                    return True
+                if a[0] == "s":
+                    st.append((stack + (self.trans[(stack[-1], tok)],), pos + 1))
+                else:
+                    lhs, rhs = self.prods[a[1]]
+                    base = stack[: len(stack) - len(rhs)]
+                    st.append((base + (self.trans[(base[-1], lhs)],), pos))
+        return False
+
+
 def consumed(elems, result):
     """characters consumed by each element given the parse result list."""
     out = []
@@ -420,8 +520,12 @@ def greedy_case(ctx, gmon):
     elems = greedy_template(rng)
     if not any(g for _, _, g, _ in elems):
         return
-    tg = template_text(elems, True)
-    tn = template_text(elems, False)
+    alt = None
+    if rng.random() < 0.35:
+        alt = "".join(rng.choice("ab") for _ in range(rng.randint(1, 3))) + "e"
+        ctx.count("greedy.with_plain_alternative")
+    tg = template_text(elems, True, alt)
+    tn = template_text(elems, False, alt)
     try:
         pgreedy = pgx.glr(pgx.grammar(tg))
         pplain = pgx.glr(pgx.grammar(tn))
@@ -429,10 +533,28 @@ def greedy_case(ctx, gmon):
         ctx.count("greedy.construction_failed:" + type(e).__name__)
         return
     shared = shares_helper(elems)
+    model = None if shared else PossessiveModel(elems, alt)
+    if alt:
+        # the plain alternative is outside the greedy operators' reach: same outcome, same result
+        for w in [alt, alt[:-1], alt + "e", "e", alt[:-1] + "a" + "e", alt[1:]]:
+            a = glrobs.parse_glr(pgreedy, w)
+            b = glrobs.parse_glr(pplain, w)
+            case = {"greedy": tg, "plain": tn, "input": w, "elems": [list(e) for e in elems], "alt": alt}
+            if "e" not in w:
+                continue
+            ctx.count("greedy.plain_alternative_inputs")
+            if (a.kind == "forest") != (b.kind == "forest"):
+                ctx.violation("greedy-changes-plain-alternative", case, "input of the plain alternative: greedy grammar %s, non-greedy grammar %s" % (a.kind, b.kind))
+            elif a.kind == "forest":
+                ra = [pgreedy.call_actions(a.forest[i]) for i in range(min(a.len, 20))]
+                rb = [pplain.call_actions(b.forest[i]) for i in range(min(b.len, 20))]
+                if sorted(map(repr, ra)) != sorted(map(repr, rb)):
+                    ctx.violation("greedy-changes-plain-alternative", case, "input of the plain alternative: greedy grammar gives %s, non-greedy %s" % (ra[:2], rb[:2]))
+                ctx.count("greedy.plain_alternative_accepted")
     for w in cfg.all_strings(ALPH, 5 if ctx.tier == "quick" else 6):
         a = glrobs.parse_glr(pgreedy, w)
         b = glrobs.parse_glr(pplain, w)
-        case = {"greedy": tg, "plain": tn, "input": w, "elems": [list(e) for e in elems]}
+        case = {"greedy": tg, "plain": tn, "input": w, "elems": [list(e) for e in elems], "alt": alt}
         ctx.case((tg, w), b.kind == "forest", sample={"greedy": tg, "input": w})
         ctx.count("greedy.cases")
         if b.kind != "forest":
@@ -489,6 +611,14 @@ def greedy_case(ctx, gmon):
             known = "KF-C13-1"
         elif possessive:
             known = "KF-C13-3"
+        if model is not None:
+            m_acc = model.accepts(w)
+            ctx.count("greedy.model_" + ("accepts" if m_acc else "rejects_sentence"))
+            if a.kind != "forest":
+                # a rejection is attributed only if the static shift preference alone explains it
+                known = None if m_acc else "KF-C13-3"
+            elif a.kind == "forest" and not m_acc:
+                ctx.count("greedy.model_rejects_but_accepted")
         if a.kind != "forest":
             ctx.violation("greedy-rejects-sentence", case, "greedy grammar rejects an input the non-greedy grammar accepts (%d trees); maximal tree %s" % (b.len, maximal[:1]), known=known)
             continue
